@@ -33,8 +33,11 @@ def main():
       for p in props:
         rc, out = sh([PY, os.path.join(VERIF, 'tflsa', 'check.py'), p, '--repo', wt, '--no-evidence'])
         hits.append('%s:%s' % (p, {0: 'silent', 1: 'VIOLATION', 2: 'exit2'}.get(rc, rc)))
+      was_exit2 = det and all(v.get('exit') == 2 for v in det.values())
       status = 'detected' if any('VIOLATION' in h for h in hits) else (
-          'never detected' if not det else 'LOST')
+          'never detected' if not det else (
+              'fail-closed' if was_exit2 and any('exit2' in h for h in hits)
+              else 'LOST'))
       if status == 'LOST':
         lost += 1
       print('%-8s %-14s %s' % (name, status, ' '.join(hits)))
